@@ -506,3 +506,59 @@ class AESCompressorInit(Contract):
         else:
             out.append(("cipher-key-is-derived-from-the-password", False))
         return out
+
+
+# ======================================================================================================= Worker.archive
+@contract
+class WorkerArchive(Contract):
+    """one call archives exactly the member at the write cursor: its data is compressed at most once (members with data,
+    and links unless dereferenced), the size / CRC returned by the codec are stored in THAT member's header entry, the
+    cursor then advances by one - and stays where it was when compressing raised (C15: the cursor never runs ahead of
+    the members that were archived)"""
+
+    target = PY + "Worker.archive"
+    props = ("C08", "C15", "C01")
+    abstract = True
+    track_raises = True
+    stable_attrs = ("header", "files_info", "files", "current_file_index")
+    noraise = ("has_strdata",)
+    frame_preserving = ("has_strdata",)
+
+    def setup(self, c):
+        d = c.choice(2)
+        return {"self_": c.opq("self"), "fp": c.opq("fp"), "files": c.opq("files"), "folder": c.opq("folder"), "deref": bool(d)}
+
+    def raises(self):
+        return [RaiseSpec("Exception")]
+
+    def _facts(self, c, b):
+        eng = c.eng
+        me = b["self_"]
+        comp = [e for e in eng.trace if e.kind == "call" and e.name.split(":")[-1].split(".")[-1] in ("write", "writestr") and e.recv is me]
+        sets = [e for e in eng.trace if e.kind == "setattr" and e.recv is me]
+        items = [e for e in eng.trace if e.kind == "setitem"]
+        return comp, sets, items
+
+    def ensures(self, c, old, result, **b):
+        eng = c.eng
+        if eng.ctx_mode == "assume":
+            return []
+        comp, sets, items = self._facts(c, b)
+        cur = [e for e in sets if e.name == "current_file_index"]
+        last = [e for e in sets if e.name == "last_file_index"]
+        out = [
+            ("data-compressed-at-most-once", len(comp) <= 1),
+            ("cursor-advances-by-exactly-one", len(cur) == 1),
+            ("cursor-advances-after-the-data-was-written", bool(not comp or (cur and eng.trace.index(comp[-1]) < eng.trace.index(cur[-1])))),
+            ("size-and-crc-recorded-iff-data-was-compressed", bool((len(items) == 2 and len(comp) == 1 and len(last) == 1) or (len(items) == 0 and len(comp) == 0 and len(last) == 0))),
+        ]
+        if len(comp) == 1 and len(items) == 2:
+            keys = sorted(str(e.args[0]) for e in items)
+            out.append(("recorded-under-maxsize-and-digest", bool(keys == ["digest", "maxsize"])))
+            out.append(("the-member-passed-to-the-codec-is-the-one-at-the-cursor", bool(comp[0].args and len(comp[0].args) >= 2 and comp[0].args[0] is b["fp"])))
+        return out
+
+    def xensures(self, c, old, exc, **b):
+        comp, sets, items = self._facts(c, b)
+        cur = [e for e in sets if e.name == "current_file_index"]
+        return [("cursor-unchanged-when-archiving-raised", len(cur) == 0, ("C15",))]
